@@ -407,12 +407,18 @@ class World:
         o = self.ov(i)
         d = {}
         for cid, c in o.circuits.items():
-            d[("C", cid)] = (id(c), tuple(id(h.keys) for h in c.hops), id(c.unverified_hop), c.state)
+            d[("C", cid)] = (id(c), tuple(id(h.keys) for h in c.hops), id(c.unverified_hop), c.state,
+                             tuple(c.hop.address) if (c.hops or c.unverified_hop) else None)
         for cid, r in o.relay_from_to.items():
             d[("R", cid)] = (id(r), r.circuit_id, id(r.hop.keys), r.hop.peer.public_key.key_to_bin(),
                              tuple(r.hop.address), r.direction)
         for cid, e in o.exit_sockets.items():
             d[("E", cid)] = (id(e), id(e.hop.keys), e.hop.peer.public_key.key_to_bin(), tuple(e.hop.address))
+        for k_, cache in o.request_cache._identifiers.items():
+            if k_.startswith("create:"):       # a pending extension (its state is consumed by the matching CREATED only)
+                d[("P", cache.number)] = (cache.to_circuit_id, cache.from_circuit_id, id(cache))
+            elif k_.startswith("created:"):
+                d[("Q", cache.circuit_id)] = (id(cache),)
         for pk, (sock, info_hash) in getattr(o, "intro_point_for", {}).items():
             d[("I", pk)] = (sock.circuit_id, id(sock), info_hash)
         for cookie, sock in getattr(o, "rendezvous_point_for", {}).items():
@@ -771,6 +777,8 @@ class History:
         if r_after is not None:
             allowed.add(r_after.circuit_id)
         for k_, v_ in ids_before.items():
+            if k_[0] not in "CREIV":
+                continue
             owner = v_[0] if k_[0] in "IV" else k_[1]
             if owner not in allowed and ids_after.get(k_) != v_:
                 self.fail("TunnelCommunity:cell-of-one-circuit-changed-another-circuits-entry",
@@ -860,7 +868,7 @@ class History:
         w.drain()
         after = w.identity(node)
         for k_, v_ in before.items():
-            if after.get(k_) != v_:
+            if k_[0] in "CREIV" and after.get(k_) != v_:
                 self.fail("TunnelCommunity.join_circuit:existing-entry-replaced-by-a-concurrent-create",
                           f"node {node}: a CREATE for id {cid} from {g[2]} passed on_create's guards while another one was still "
                           f"waiting in should_join_circuit; when its turn came the entry {k_[0]} {k_[1]} "
@@ -1207,6 +1215,12 @@ class History:
         return rng.randint(1, w.n), rng.getrandbits(32)
 
     def pick_src(self, node: int):
+        """Source address of an injected datagram, as the UDP endpoint reports it (a UDPv4Address / UDPv6Address)."""
+        from ipv8.messaging.interfaces.udp.endpoint import UDPv4Address, UDPv6Address
+        a = self._pick_src(node)
+        return (UDPv6Address if ":" in a[0] else UDPv4Address)(*a)
+
+    def _pick_src(self, node: int):
         w, rng = self.w, self.rng
         if "src" in self.force:
             return self.force["src"]
@@ -1508,7 +1522,11 @@ class History:
             i = bytes(pkt).rindex(struct.pack("!I", signed_cid), 0, len(pkt) - 64)
             pkt[i:i + 4] = struct.pack("!I", cid)
             sigok = False
-        src = self.pick_src(node) if (rng.random() < 0.6 or "src" in self.force) else w.addr(signer)
+        from ipv8.messaging.interfaces.udp.endpoint import UDPv4Address
+        if sigok:
+            src = UDPv4Address(*w.addr(signer))      # the harness signs for that peer: as sent by the peer itself
+        else:
+            src = self.pick_src(node) if (rng.random() < 0.8 or "src" in self.force) else UDPv4Address(*w.addr(signer))
         before = w.identity(node)
         snap = w.snapshot(node)
         if sigok and adj is not None and w.key_idx.get(adj) == signer:
@@ -1807,7 +1825,16 @@ class History:
                     break
             w.drain()
             self.ctx.count("identifier-search:cells", (hit + 1) if hit is not None else 65536)
-            changed = w.identity(3) != before or w.step_sends
+            after = w.identity(3)
+            lost = [k_ for k_ in before if k_[0] == "P" and after.get(k_) != before[k_]]
+            if lost and not w.step_sends:
+                self.fail("TunnelCommunity.on_created:extension-state-consumed-by-identifier-search",
+                          f"a plaintext CREATED naming the unknown circuit id {unknown_cid}, sent by an outsider without any key, "
+                          f"hit the pending 16-bit identifier after {(hit if hit is not None else 65535) + 1} cells and node 3 "
+                          f"dropped the pending extension {lost} of circuit {key[1]}: the genuine CREATED of the next hop will be "
+                          f"rejected and the circuit never gets its hop", {"unknown_cid": unknown_cid, "ident": hit})
+            changed = {k_: v_ for k_, v_ in after.items() if k_[0] in "CRE"} != \
+                {k_: v_ for k_, v_ in before.items() if k_[0] in "CRE"} or w.step_sends
             if changed:
                 self.fail("TunnelCommunity.on_created:extension-completed-by-identifier-search",
                           f"a plaintext CREATED naming the unknown circuit id {unknown_cid}, sent by an outsider without any key, "
@@ -1820,6 +1847,14 @@ class History:
                             True, ("search", bool(changed)))
             if not self.failed:
                 self.flush()
+                c1 = w.ov(1).circuits.get(key[1])
+                if c1 is None or c1.state != "READY":
+                    self.fail("history:extension-never-completed",
+                              f"circuit {key[1]} of node 1 did not complete after the identifier search at its relay "
+                              f"({'gone' if c1 is None else c1.state})", {"unknown_cid": unknown_cid})
+            if not self.failed:
+                self.observed_identifier_at_originator()
+            if not self.failed:
                 self.final_probe()
             self.ctx.count("identifier-search:histories")
         finally:
@@ -2002,6 +2037,35 @@ class History:
             self.ctx.count(f"closing-hopless:histories:delay={delay}")
         finally:
             w.close()
+
+    def observed_identifier_at_originator(self):
+        """The identifier of a CREATE travels in clear.  A third party that saw it answers with a plaintext CREATED naming
+        the circuit, a WELL-FORMED key and a wrong authentication tag, before the real first hop does: the circuit under
+        construction must stay as it is (the handshake simply does not verify)."""
+        from ipv8.messaging.anonymization.payload import CellPayload, CreatedPayload
+        w = self.w
+        key = self.act_open((2, 1, 4))
+        if key is None:
+            return
+        retry = w.ov(2).request_cache.get("retry", key[1])
+        if retry is None:
+            return
+        att = w.n + 1
+        before = w.identity(2)
+        pl = CreatedPayload(key[1], retry.packet_identifier, bytes(range(32)), b"\x07" * 32, b"")
+        cell = CellPayload(key[1], bytes([pl.msg_id]) + w.ov(att).serializer.pack_serializable(pl)[4:], True, False)
+        src = self.pick_src(2)
+        w.begin()
+        w.inject(2, src, cell.to_bin(w.prefix))
+        after = w.identity(2)
+        if {k_: v_ for k_, v_ in after.items() if k_[0] == "C"} != {k_: v_ for k_, v_ in before.items() if k_[0] == "C"}:
+            self.fail("TunnelCommunity._ours_on_created_extended:circuit-changed-by-unauthenticated-created",
+                      f"a plaintext CREATED for circuit {key[1]} of node 2 with the identifier seen in its CREATE, a well-formed "
+                      f"key and a wrong authentication tag changed the circuit under construction: "
+                      f"{before.get(('C', key[1]))} -> {after.get(('C', key[1]), 'removed')}", {"node": 2})
+        self.record(f"fc 2 {w.aidx(src)} {key[1]} 1 0 [] created:{retry.packet_identifier + 1}:1:{att}:0", 2,
+                    "forge-created-observed-identifier", True, ("observed-ident",))
+        self.flush()
 
     def run_opening(self, seq, hops: int):
         """Small-scope exhaustive scenario: two circuits of different originators end at the SAME exit node; `seq`
